@@ -315,6 +315,15 @@ impl Default for RawBlindPool {
     }
 }
 
+#[cfg(folo_verif)]
+impl RawBlindPool {
+    /// Verification hook: read-only snapshots of every inner pool, in layout key order.
+    #[must_use]
+    pub fn verif_probe(&self) -> Vec<crate::verif::PoolProbe> {
+        self.pools.values().map(RawOpaquePool::verif_probe).collect()
+    }
+}
+
 #[cfg(test)]
 #[allow(
     clippy::indexing_slicing,
